@@ -35,6 +35,9 @@ CHECKS["C17"] = dict(design="4/C17", technique="TLA+ pull-driven stream machine 
 CHECKS["C10"] = dict(design="4/C10", technique="TLA+ request pipeline (GqlRequest) enumerated by TLC + response-format judge (GqlResponse) evaluated by TLC on projected responses of the request matrix, all prefixes of request texts and TLC-generated executions",
     text="spec/GqlRequest.tla fixes the outcome class (syntax / invalid / no operation / bad variables / executed) of every document x operation name x variable payload; each request runs on the four entry-point configurations. Their responses, those of every prefix of a set of request texts (truncation anywhere, CR / CRLF / BOM / escapes / block strings) and of GqlSched executions (error positions incl. list indices known from the model) are projected and judged clause by clause by spec/GqlResponse.tla: no escaping exception, strict JSON, data omitted after parse / validation failure, string messages, line / column keys and in-document ranges, paths of keys and indices addressing a null, extensions passed through, exactly one error per error-null, no two errors for one path. Canary responses must be rejected.",
     note="Outcome class of free texts comes from the C01-verified parser and the validator; strict JSON is a harness observation (json.dumps(allow_nan=False)).")
+CHECKS["C07"] = dict(design="4/C07", technique="TLA+ reference coercion function (GqlCoerce) evaluated by TLC over all types x values x routes; replay through real queries with a recording resolver and coerce_value",
+    text="spec/GqlCoerce.tla transcribes input coercion (variables, literals, argument defaults, input object defaults and python names, enum internal values, list wrapping, 32-bit range) as Coerce(type, value) plus the Laws invariant (no null in non-null positions, in-range integers, wrapped singletons); TLC enumerates every argument type of bounded wrapper depth over Int / String / enum / recursive input object, every value of the family (boundary integers, unknown keys, wrong kinds) and every route (literal, variable, variable default, omitted, variable inside an object literal, null variable into a non-null argument). Each case runs as a real query against a recording resolver: the received kwargs must equal the reference or the request must be rejected before any resolver runs.",
+    note="Scalar-to-scalar leniency (e.g. a string for Int) is reported but not judged. Floats are not modelled.")
 NOT_YET = {
 }
 
